@@ -20,6 +20,17 @@ pub trait Mk: PixelColor + ColorMapping + Tag + core::fmt::Debug {
         None
     }
     const NAME: &'static str;
+    /// number of raw values of the colour type
+    fn nvalues() -> u64 {
+        match Self::rgb_layout() {
+            Some(((r, g, b), _)) => 1u64 << (r + g + b),
+            None => 1u64 << <<Self as PixelColor>::Raw as RawData>::BITS_PER_PIXEL,
+        }
+    }
+    /// the colour function handed to MockDisplay::map by the suites: raw value shifted by k
+    fn shifted(self, k: u32) -> Self {
+        Self::mk(((self.tag() as u64 + k as u64) % Self::nvalues()) as u32)
+    }
 }
 macro_rules! mk {
     ($t:ident, $raw:ident, $st:ty, $layout:expr) => {
@@ -149,6 +160,10 @@ fn step<C: Mk>(d: &mut MockDisplay<C>, out: &mut Vec<String>, tok: &str) {
         "dump" => out.push(format!("[{}]", dump(d))),
         "sw" => out.push(format!("[{}]", dump(&d.swap_xy()))),
         "dbg" => out.push(text_out(&format!("{:?}", d))),
+        "mp" => {
+            let k = u(f[1]);
+            out.push(format!("[{}]", dump(&d.map(|c| c.shifted(k)))))
+        }
         _ => panic!("bad token {}", tok),
     }
 }
@@ -210,8 +225,42 @@ fn mock_pattern<C: Mk>(toks: &[&str]) -> String {
     }
 }
 
+fn points_of(toks: &[&str]) -> Vec<Point> {
+    toks.iter().map(|s| { let f: Vec<&str> = s.split(':').collect(); pt(f[0], f[1]) }).collect()
+}
+
+fn mock_points<C: Mk>(toks: &[&str]) -> String {
+    let c = C::mk(u(toks[0]));
+    let pts = points_of(&toks[1..]);
+    match guarded(|| MockDisplay::<C>::from_points(pts, c)) {
+        Ok(d) => format!("[{}] AA {}", dump(&d), src(d.affected_area())),
+        Err(k) => format!("PANIC {}", k),
+    }
+}
+
+/// from_points: panics exactly when a point is outside, otherwise exactly the given points hold the colour
+fn p_mock_points<C: Mk>(toks: &[&str]) -> String {
+    let cv = u(toks[0]);
+    let pts = points_of(&toks[1..]);
+    let mut r = Ref::default();
+    let mut bad = false;
+    for p in &pts {
+        if inside(p.x as i64, p.y as i64) { r.map.insert((p.x, p.y), cv); } else { bad = true; break; }
+    }
+    match guarded(|| MockDisplay::<C>::from_points(pts.clone(), C::mk(cv))) {
+        Ok(d) => {
+            if bad { return "FAIL from_points accepted a point outside the display".into(); }
+            if let Err(e) = agree(&d, &r, &[]) { return format!("FAIL from_points: {}", e); }
+            format!("OK {}", r.map.len())
+        }
+        Err(k) => if bad && k == "setpixel" { "OK panic".into() } else { format!("FAIL from_points panicked: {}", k) },
+    }
+}
+
 pub fn run(suite: &str, a: &[&str]) -> Option<String> {
     Some(match suite {
+        "mock_points" => dispatch!(a[0], mock_points, &a[1..]),
+        "p_mock_points" => dispatch!(a[0], p_mock_points, &a[1..]),
         "mock_hist" => dispatch!(a[0], mock_hist, &a[1..]),
         "mock_eqdiff" => dispatch!(a[0], mock_eqdiff, &a[1..]),
         "mock_pattern" => dispatch!(a[0], mock_pattern, &a[1..]),
@@ -350,7 +399,7 @@ fn p_mock_hist<C: Mk>(toks: &[&str]) -> String {
                     Ok(())
                 } else { Err("setpixel") }
             }
-            "gp" | "aa" | "dump" | "sw" | "dbg" => Ok(()),
+            "gp" | "aa" | "dump" | "sw" | "dbg" | "mp" => Ok(()),
             _ => {
                 let ws = requested(tok).unwrap();
                 for w in ws.iter().take(64) {
@@ -378,6 +427,14 @@ fn p_mock_hist<C: Mk>(toks: &[&str]) -> String {
             let mut rs = Ref::default();
             for (&(x, y), &c) in r.map.iter() { rs.map.insert((y, x), c); }
             if let Err(e) = agree(&s, &rs, &[]) { return format!("FAIL swap_xy after op#{}: {}", k, e); }
+        }
+        // map applies the function to every touched cell and leaves the others untouched
+        if f[0] == "mp" {
+            let k = u(f[1]);
+            let s = d.map(|c| c.shifted(k));
+            let mut rs = Ref::default();
+            for (&(x, y), &c) in r.map.iter() { rs.map.insert((x, y), ((c as u64 + k as u64) % C::nvalues()) as u32); }
+            if let Err(e) = agree(&s, &rs, &[]) { return format!("FAIL map after op#{}: {}", k, e); }
         }
         if got.is_err() {
             break;
@@ -410,7 +467,7 @@ fn build<C: Mk>(toks: &[&str]) -> (MockDisplay<C>, Ref) {
                 if !inside(x, y) { continue; }
                 if f[3] == "n" { r.map.remove(&(x as i32, y as i32)); } else { r.map.insert((x as i32, y as i32), u(f[3])); }
             }
-            "gp" | "aa" | "dump" | "sw" | "dbg" => continue,
+            "gp" | "aa" | "dump" | "sw" | "dbg" | "mp" => continue,
             _ => { r.writes(&requested(tok).unwrap()).unwrap(); }
         }
         step(&mut d, &mut out, tok);
